@@ -5,6 +5,8 @@ CONSTANTS
   MaxReplies = 1000
   LeakOnSendError = FALSE
   MatchCreation = TRUE
+  OtherPeer = FALSE
+  ClearOnAnyDisconnect = FALSE
   SeqCallers = FALSE
   RemoveOnTimeout = TRUE
 INVARIANT OwnReplyOnly
